@@ -243,10 +243,10 @@ def extract_iter(
             while to_unwrap and to_unwrap[0][2] >= depth:
                 to_unwrap.popleft()
         else:
-            # Only inserting new items into the stack trace; since
-            # next_inner is in both `items` and `to_unwrap`, remove it
-            # from the latter
-            to_unwrap.popleft()
+            # Only inserting new items into the stack trace; next_inner is
+            # already at the front of `to_unwrap` (if it exists at all), so
+            # leave it there, at its own depth, and insert the rest before it
+            items = items[:-1]
         for item in reversed(items):
             to_unwrap.appendleft((better_origin(item, None), item, depth))
 
